@@ -100,6 +100,22 @@ func Main(args []string) int {
 	return coordinate(p, tier)
 }
 
+// KnownOf returns the ids of the findings listed with status "known" for another property (C02 reuses
+// C01's layout signatures to recognise layouts that are C01's business).
+func KnownOf(prop string) []string {
+	fs, err := LoadFindings(filepath.Join(Root(), "known_findings.json"))
+	if err != nil {
+		return nil
+	}
+	var out []string
+	for _, f := range fs {
+		if f.Property == prop && f.Status == "known" {
+			out = append(out, f.ID)
+		}
+	}
+	return out
+}
+
 func loadKnown(p *Prop) []Finding {
 	fs, err := LoadFindings(filepath.Join(Root(), "known_findings.json"))
 	if err != nil {
